@@ -138,7 +138,12 @@ def run(chk, tier):
     sample = allnames if tier == "thorough" else sorted(set(always + rnd.sample(allnames, 30)))
     clv = [1, 2, 3] if tier == "quick" else list(range(1, 10))
     ccfgs = [("interp-Q0", "interp", ("-Q0",))] + [("interp-Q%d" % q, "interp", ("-Q%d" % q,)) for q in clv]
-    chk.extra["corpus"] = corpus.observe(chk, b, sample, ccfgs, os.path.join(wd, "corpus"), "C02", "interp-Q0")
+    if tier == "thorough":
+        # the executable route too; observations are grouped by (program, route): each route's levels must agree with
+        # that route's -Q0 (differences between the routes are C03's subject)
+        ccfgs += [("c-Q%d" % q, "c", ("-Q%d" % q,)) for q in (0, 1, 2, 3, 5, 9)]
+    chk.extra["corpus"] = corpus.observe(chk, b, sample, ccfgs, os.path.join(wd, "corpus"), "C02", "interp-Q0",
+                                         group=lambda n, label: n + "@" + label.split("-")[0])
     chk.extra["configurations_in_model"] = total
     chk.extra["configurations_replayed"] = len(chosen)
     chk.extra["schedule_drift"] = drift[:10]
